@@ -4,6 +4,26 @@ CLAIMED = {
         "note": "Trusted: Lean kernel; harness+driver; SF64 = Go float64 (checked by stream 'sf', not proved); mock Entry contract. M = S for round()/number()/string() primitives is checked by correspondence, the machine-vs-tree theorem is proved. Known finding: number('Infinity').",
         "technique": "Lean 4 proof (compiler correctness by structural induction) + differential correspondence model/spec vs real code",
     },
+    "C02": {
+        "text": "Lean 4 theorem that the path/predicate stack machine, run on the code of any supported location path (any number of steps, '..' steps, predicates per step, absolute / current() / '..'-rooted operand paths, nested deref()), issues exactly the Navigate/GetValue/FollowLeafRef requests the specification lists and returns the value of the designated node (invariant over path stack, predicate stack, predicateCount/predicateEvalPath parity); plus predicate-order independence (sorted key map, permutation lemma) and prefix irrelevance. The machine model is tied to /repo by differential execution of the real compiler+machine against a recording mock Entry (model runs through the Lean lexer+parser model of the same text; spec is computed from the syntax tree).",
+        "note": "Trusted: Lean kernel; harness+driver; sdcpb.Path helpers modelled; mock Entry contract. Proved for literal/number/path operands with distinct keys per step (C02_nav_partial); function-result operands only tested.",
+        "technique": "Lean 4 proof (machine invariant by induction over steps/predicates/operands) + differential correspondence against a recording mock tree",
+    },
+    "C03": {
+        "text": "Regenerated obligation that the productions and actions of xpath.y are those the Lean parser model transcribes (precedence/associativity are read off the productions; goyacc reports no conflicts), Lean lemma that whitespace in front of any token is insignificant, and differential correspondence: each random expression tree is rendered twice (minimal vs full parentheses, two admissible parenthesisations, two whitespace layouts) and the real compiler's two listings and run results are compared with each other, with the Lean lexer+parser model and with the program of the tree.",
+        "note": "Trusted: Lean kernel; goyacc LALR driver; harness+driver. Token-level parser correctness (parse∘render = program) is NOT yet a theorem: held by the correspondence stream (testing).",
+        "technique": "Lean 4 (regenerated grammar obligation, lexer whitespace lemma) + differential correspondence on paired renderings",
+    },
+    "C04": {
+        "text": "Regenerated Lean obligations (decide) that the function table, token constants, the three token maps, node-type/axis/operator name lists, the tokenCanBeOperator set and every production+action of xpath.y and leafref.y are those the Lean lexer/parser models were transcribed from, that goyacc reports no conflicts and the checked-in tables are fresh; acceptance is then decided by exhaustive small-scope correspondence (EVERY token sequence up to length 3/4 over the full token alphabet, with and without separating blanks, for both grammars) and fuzzing, against the model (exact outcome) and against the strict specification variant (accept/reject).",
+        "note": "Trusted: Lean kernel; goyacc LALR driver implements the extracted grammar; harness+driver. The specification is the model with the strictness switches of XPath 1.0 (no exponent, no '( )', no blanks in QNames) — three open known findings. An independent declarative grammar with a soundness/completeness theorem is not yet built.",
+        "technique": "Lean 4 (regenerated table/grammar obligations by decide) + exhaustive small-scope differential correspondence",
+    },
+    "C05": {
+        "text": "Lean 4 theorems over the machine model: every program ending in store runs to a value xor an error; the error of the first failing instruction is the error of the run (a data-tree error is never replaced); a failing callback is reported as the tree's error. Tied to /repo by differential execution: all 1-2 byte inputs and random/mutated byte strings through the three New*Machine constructors under recover (a panic is an observation), and every supported path with the k-th data-tree callback failing for every k.",
+        "note": "Trusted: Lean kernel; harness+driver. Build totality (no panic, mark inside the expression) is modelled with explicit panic/diverge outcomes and checked by correspondence; the Lean proof that these outcomes are unreachable (lexer byte-accounting invariant, parser fuel) is not yet done. path_eval: construction totality only.",
+        "technique": "Lean 4 proof (run outcome lemmas) + byte-level fuzz and exhaustive fault-position differential correspondence",
+    },
 }
 NOT_APPLICABLE = {}
 SOURCE_COMMITS = []  # no hook commits: all observation points are public API
